@@ -220,13 +220,31 @@ def r2_server(ctx):
         ctx.check(bool(q) and bool(desp), "%s/despawns-all-clients" % short(e["path"]), site_of(b),
                   "the stop handler does not despawn every ConnectedClient entity (per-client state and queued messages would survive)")
     ctx.check(bool(reset_systems), "server/reset-system", "", "no system runs on server_just_stopped")
+    removed_client_purge(ctx)
+
+
+def removed_client_purge(ctx):
+    """Queued messages of a removed client are purged, for every removed client, from both directions' queues (also C06.R4)."""
+    F = ctx.F
+    S = schedule(F)
     # queued messages of a removed client are purged
     hd = [o for o in S.observers if o["event"].endswith("OnRemove") and o["bundle"].endswith("ConnectedClient")]
     ok = False
     for o in hd:
         b = F.fns[o["handler"]]
-        if any(callee_decl(t).endswith("RepliconServer::remove_client") for _, t in b.calls()):
+        for cbb, t in b.calls():
+            if not callee_decl(t).endswith("RepliconServer::remove_client"):
+                continue
             ok = True
+            # for every removed client, whatever its state (a connected-but-unauthorized client has queued messages too: its handshake)
+            rets = [x.idx for x in b.blocks if x.idx in b.reach and x.term["t"] == "return"]
+            skipping = [r for r in rets if b.reachable_avoiding(r, [], removed_blocks=(cbb,))]
+            ctx.check(not skipping, "server/purge-on-client-removal/unconditional", site_of(b, cbb),
+                      "the removed client's queued messages are purged only on some paths: messages of a client removed in another state are delivered after the client "
+                      "entity is gone (%s)" % [(c["kind"], c.get("name"), sorted(map(str, o_))) for (_, c, o_) in required_outcomes(F, b, cbb)])
+            src = tracer(b).operand(t["args"][1])
+            ctx.check(bool(src) and all(x.kind == "call" and callee_decl(b.blocks[x.data].term).endswith("::target") for x in src), "server/purge-on-client-removal/removed-client",
+                      site_of(b, cbb), "the purge is not given the removed client (the trigger's target)")
     ctx.check(ok, "server/purge-on-client-removal", "", "no OnRemove<ConnectedClient> observer purges the removed client's queued messages")
     rc = ctx.fn("RepliconServer::remove_client")
     touched = set()
@@ -238,6 +256,7 @@ def r2_server(ctx):
                         touched.add(e2[2])
     ctx.check({"received_messages", "sent_messages"} <= touched, "RepliconServer::remove_client/both-queues", site_of(rc),
               "remove_client purges only %s" % sorted(touched))
+
 
 
 def _fields_touched(F, body, adt):
@@ -441,17 +460,19 @@ THOROUGH_CONFIGS = ["default", "all-features", "server-only", "client-only"]
 def _pool_id(F, body, op):
     from flow import resolve_through_closure
     tr = tracer(body)
-    origins = tr.operand(op)
+    origins = [(body, o) for o in tr.operand(op)]
     if body.kind == "Closure":
-        origins = {o for (_, o) in resolve_through_closure(F, body, origins)}
-        # origins now refer to the parent; local types of params must be looked up there
+        # origins rooted at captures refer to the creating function; local types of its params are looked up there
+        origins = list(resolve_through_closure(F, body, tr.operand(op)))
     ids = set()
-    for o in origins:
+    for (ob, o) in origins:
         flds = [e for e in o.path if e[0] == "f" and e[3] and e[3] in F.adts]
         if flds:
-            ids.add((flds[-1][3], flds[-1][2]))
-        elif o.kind == "param" and body.kind != "Closure":
-            ty = body.locals[o.data]["ty"].replace("&mut ", "").replace("&", "").strip()
+            # a single-field wrapper (`struct Pool(Vec<..>)`) is the same pool whether reached through its field or through Deref
+            single = len(F.adt_fields(flds[-1][3]) or []) == 1
+            ids.add((flds[-1][3], "*" if single else flds[-1][2]))
+        elif o.kind == "param" and ob.kind != "Closure":
+            ty = ob.locals[o.data]["ty"].replace("&mut ", "").replace("&", "").strip()
             base = ty.split("<")[0]
             if base in F.adts:
                 ids.add((base, "*"))
